@@ -94,6 +94,18 @@ func (jd *JWEDecrypt) Decrypt(jwe *JSONWebEncryption) ([]byte, error) {
 		return nil, fmt.Errorf("jwedecrypt: failed to build recipients WK: %w", err)
 	}
 
+	if len(wkOpts) > 0 {
+		// a sender key id announces authenticated encryption: the content key must then be unwrapped with ECDH-1PU,
+		// the only key agreement the sender's key takes part in. An ECDH-ES wrapped key would be unwrapped without
+		// any proof of the sender's identity although the caller attributes the message to 'skid'.
+		for _, rec := range recWK {
+			if !strings.Contains(strings.ToUpper(rec.Alg), "1PU") {
+				return nil, fmt.Errorf("jwedecrypt: sender key id '%s' requires ECDH-1PU key wrapping, not '%s'",
+					skid, rec.Alg)
+			}
+		}
+	}
+
 	cek, err := jd.unwrapCEK(recWK, wkOpts...)
 	if err != nil {
 		return nil, fmt.Errorf("jwedecrypt: %w", err)
